@@ -26,12 +26,15 @@ def mount_rw(img, sched=None):
     dev = TraceDevice(img, writable=True, record_reads=False)
     with warnings.catch_warnings():
         warnings.simplefilter("ignore")
-        f = PyFatBytesIOFS(S.SchedDevice(dev, sched) if sched else dev)
+        sdev = S.SchedDevice(dev, sched) if sched else dev
+        f = PyFatBytesIOFS(sdev)
     if sched:
         f.fs._PyFat__lock = S.SLock(sched, "dev")
         f._lock = S.SLock(sched, "fs", reentrant=True)
         if hasattr(f.fs, "fs_lock"):
             f.fs.fs_lock = S.SLock(sched, "fsl", reentrant=True)
+            sdev.guard = f.fs.fs_lock       # the premise of C19_linearizable: every modification happens inside the filesystem lock
+        dev.sdev = sdev
     return f, dev
 
 
@@ -130,6 +133,11 @@ def one_schedule(ctx, img, meta, progs, seq_trees, policy, line_mode, label, rep
         else:
             ctx.violation(f"{label}: {sc.error}", "schedule-deadlock", rep)
         return sc
+    ung = getattr(getattr(dev, "sdev", None), "unguarded", None)
+    if ung:
+        # the interleaving model's premise does not hold on this trace: a correspondence break, not by itself a violation of the property
+        ctx.tie_break(f"{label}: thread {ung[0][0]} wrote to the device at {ung[0][1]} without owning the filesystem lock (premise of C19_linearizable)",
+                      dict(rep, unguarded_writes=ung[:5]))
     for i, r in enumerate(res):
         got = r[1] if r and r[0] == "ok" else [str(r)]
         bad = [x for x in got if isinstance(x, str) and x.startswith("ERR:INTERNAL")]
